@@ -14,6 +14,7 @@ import enum
 import math
 
 import json
+import os
 import attrs
 
 LIMIT = 10 ** 9
@@ -219,11 +220,18 @@ class Package:
     @property
     def conv(self):
         if self._conv is None:
-            import os
             cfg = os.environ.get("VERIF_CONV_CFG", "default")
             if cfg == "nodetail":        # a user-supplied converter with detailed validation switched off
                 import cattrs
                 self._conv = self.converters.get_converter(cattrs.Converter(detailed_validation=False))
+            elif cfg == "after_generator":
+                # the process has ALSO loaded the metamodel through the generator's model layer (a tool that regenerates and
+                # then uses the package, a test-suite that does both): whatever the generator switches globally is still on
+                import importlib
+                import json as _json
+                gm = importlib.import_module("generator.model")
+                gm.create_lsp_model([_json.load(open(os.environ["VERIF_LSP_JSON"], encoding="utf-8"))])
+                self._conv = self.converters.get_converter()
             elif cfg == "user":          # a converter the application created itself, all defaults
                 import cattrs
                 self._conv = self.converters.get_converter(cattrs.Converter())
